@@ -16,6 +16,7 @@ var pureIfaceMethods = map[string]bool{
 	"RequireTransportSecurity": true, // credentials.PerRPCCredentials: a constant property of the credential
 	"Info":                     true, // credentials.TransportCredentials.Info(): static protocol description
 	"TransportCredentials":     true, // credentials.Bundle: the bundle's transport credentials
+	"isThrottled":              true, // transport.cbItem: a constant of the item's type (all implementations return a literal)
 	// by full name:
 	"(google.golang.org/grpc/mem.Buffer).Len":          true, // length of a live buffer: constant between Ref/Free
 	"(google.golang.org/grpc/mem.Buffer).ReadOnlyData": true, // the buffer's bytes (same slice for a live buffer)
